@@ -66,6 +66,59 @@ def gtable(tab, parse):
     return "[" + "; ".join(rows) + "]"
 
 
+def cer_history_oracle(ctx):
+    """package tables that arrive as content evaluation results (ahbicht's own ContentEvaluationResultBasedPackageResolver, one singleton instance):
+    a history of resolutions with DIFFERENT tables -- with and without an id, one after the other and several at once -- each compared with the
+    parse of the bracketed textual substitution under its own table"""
+    import uuid
+
+    import inject
+    from vlib import cerconc
+    from ahbicht.expressions.expression_resolver import parse_expression_including_unresolved_subexpressions as resolve
+
+    rng = ctx.rng
+    exprs_ = ["[1] U [1P]", "[1P] O [2P] U [3]", "X [2P] U [1P]", "Muss [1P0..1] Soll [2P]", "[3P] O ([1] U [1P])", "[UB1] U [2P]"]
+    variants = {"1P": ["[11] U [12]", "[13]", "[14] O [15][901]", "[UB2]"], "2P": ["[21]", "[22] X [23]", "[24] U [25] U [26]"], "3P": ["[31]", "[UB3] U [32]"]}
+    n = 0
+    cerconc._configure()  # pylint: disable=protected-access
+    try:
+        for with_id in (False, True, False):
+            steps = []
+            for _ in range(6 if ctx.quick else 40):
+                tab = {k: rng.choice(v) for k, v in variants.items()}
+                body = cerconc._body(packages=tab)  # pylint: disable=protected-access
+                body["id"] = str(uuid.UUID(int=rng.getrandbits(128))) if with_id else None
+                steps.append((rng.choice(exprs_), tab, body))
+            # one after the other, then all at once
+            for group in [[i] for i in range(len(steps))] + [list(range(len(steps)))]:
+                async def one(i):
+                    cerconc._var.set(steps[i][2])  # pylint: disable=protected-access
+                    try:
+                        return ("ok", await resolve(steps[i][0], resolve_packages=True, replace_time_conditions=True))
+                    except Exception as e:  # pylint: disable=broad-except
+                        from vlib import impl
+                        return ("exn", impl.exc_class(e))
+
+                async def main():
+                    return await asyncio.gather(*[one(i) for i in group])
+
+                got = asyncio.run(main())
+                for i, g in zip(group, got):
+                    expr, tab, _b = steps[i]
+                    n += 1
+                    want = evalimpl.outcome(lambda: asyncio.run(resolve(subst_text(expr, tab, True, True), resolve_packages=False, replace_time_conditions=False)))
+                    if want[0] != g[0] or want[1] != g[1]:
+                        ctx.fail(f"cer-history|{with_id}|{group}|{i}|{expr}", {"kind": "cer_history", "expression": expr, "packages": tab, "content_evaluation_result_has_id": with_id,
+                                                                              "earlier_tables": [steps[j][1] for j in range(i)], "concurrently": len(group) > 1},
+                                 str(want[1])[:300], str(g[1])[:300],
+                                 "oracle: resolved tree == parse of the bracketed textual substitution under the table of THIS content evaluation result")
+                        return n
+    finally:
+        inject.clear()
+        evalimpl._configured = False  # pylint: disable=protected-access
+    return n
+
+
 def run(ctx):
     from lark import Tree
     from ahbicht.expressions.expression_resolver import parse_expression_including_unresolved_subexpressions as resolve
@@ -163,6 +216,7 @@ def run(ctx):
         if want[0] != "ok" or want[1] != res[1]:
             ctx.fail(f"ahb-subst|{s!r}|{sorted(tab.items())}|{rp}|{rt}", dict(desc, substituted=subst_text(s, tab, rp, rt)), str(want[1])[:300], str(res[1])[:300],
                      "oracle: resolved AHB tree == parse of the bracketed textual substitution")
+    ctx.add_eval(cer_history_oracle(ctx))
     n, bad, err = runner.run_case_files("C10", IMPORTS, "res_case", "res_check", terms, shard=150)
     if err:
         ctx.broke("correspondence (resolver) could not be evaluated in Coq", err)
